@@ -1,4 +1,4 @@
-\* operator part: every tree of depth <= 2 over the operators ir.SymbolicDim overloads
+\* mixed signs: floor ceil trunc neg // % over (a-b)/k, (a-b)/c, k/a-b; all lemmas, every tree emitted
 CONSTANTS
   Syms = {"N", "M"}
   SymSeq <- MCSymSeq2
@@ -14,14 +14,14 @@ CONSTANTS
   PerClass = 2
   ClosedBoost = 1
   SampleRem = 0
-  MixInts = {}
-  MixDivs = {}
-  MixNums = {}
+  MixInts = {1, 5}
+  MixDivs = {2, 3}
+  MixNums = {2, 3, 7}
   NRand = 0
   RandDepth = 0
-  LightLemmas = TRUE
-INIT InitEnum
-NEXT NextEnum
+  LightLemmas = FALSE
+INIT InitMixed
+NEXT NextMixed
 INVARIANT ValueTable
 INVARIANT RoundTripTree
 INVARIANT DesugarOK
